@@ -43,6 +43,7 @@ BOUND = ("families Trapezoidal, Simpson, ClenshawCurtis, Leja (boundary on and o
          "BSpline min(p,n-1), Lagrange min(p,l+1) (= min(p,n-1) except p=4,l=2, see notes). History (round 2), every complete case: the grid is asked twice; the "
          "Function cache is compared with own evaluation after integrate; the same Function object is integrated by a nodal grid first and by "
          "point-wise evaluating grids (hierarchical family under test / LagrangeGrid p=1 / TrapezoidalGrid(integrator='old')) afterwards")
+BOUND += "; fault / magnitude additions: boundary flags switched through set_boundaries with python bools or numpy bool arrays (alternating by case)"
 RULE = BOUND + ("; one case = (family, p, boundary, a, b, start, end, levelvec); non-trivial = the grid has at least one point; "
                 "tolerance: |result-exact| <= 1e-10 * prod_i int_box |x_i|^k_i dx_i")
 BUDGET = {"quick": 60.0, "thorough": 800.0}
